@@ -53,6 +53,33 @@ def check_doc(acc, headers, hist, pre=(), all_filters=False, mono=True, only_fil
         return
     exp = [(e[0], g[1]) for g, e in zip(got, exp)]       # cells whose category the documentation leaves open take kernpy's
     _two_documents(acc, doc, exp, case)
+    # ONE filter container edited in place between consecutive queries (list and set): every query must answer for the container's CURRENT content
+    try:
+        for shape in (list, set):
+            box = shape([TC.CORE])
+            seq_ = [('CORE',), ('CORE', 'BARLINES'), ('BARLINES',), ('BARLINES', 'SIGNATURES'), ('SIGNATURES',)]
+            for names in seq_:
+                if shape is list:
+                    box[:] = [TC[x] for x in names]
+                else:
+                    box.clear()
+                    box.update(TC[x] for x in names)
+                clo = catref.closure(names)
+                e = [x for x in exp if x[1] in clo]
+                acc.count('transitions', 3)
+                g1 = listing(doc.get_all_tokens(filter_by_categories=box))
+                e_u, seen_ = [], set()
+                for x in e:
+                    if x[0] not in seen_:
+                        seen_.add(x[0])
+                        e_u.append(x)
+                g2 = listing(doc.get_unique_tokens(filter_by_categories=box))
+                fr = doc.frequencies(box)
+                if g1 != e or g2 != e_u or sum(v['occurrences'] for v in fr.values()) != len(e):
+                    acc.violation(Viol('filter-container-edited-in-place', 'answers-for-an-earlier-content-of-the-container', dict(case, filter=list(names), container=shape.__name__), len(e), [len(g1), len(g2)]))
+                    break
+    except Exception as e_:  # noqa
+        acc.violation(Viol('filter-container-edited-in-place', 'raises', case, None, f'{type(e_).__name__}: {str(e_)[:100]}'))
     hd = h64(text)
     filters = [None] + SINGLES + (ROT if all_filters else [f for i, f in enumerate(ROT) if (i + hd) % 8 == 0])
     if only_filters is not None and not all_filters:
